@@ -177,10 +177,10 @@ pub fn run(ctx: &mut Ctx) {
     }
     // keywords are case-insensitive for the parser (word keywords, word operators, and the words the grammar
     // matches by text: PRIORITY, INTERVAL, action qualifiers, literal prefixes, units): every program with at most
-    // one deviation is parsed again with all of them, and every identifier, in lower case and must give the same tree up to letter case
+    // two deviations is parsed again with all of them, and every identifier, in lower case and must give the same tree up to letter case
     {
         use crate::lex::{spell, Class};
-        let hosts: Vec<&gram::Case> = cases.iter().filter(|c| c.labels.len() <= 1).collect();
+        let hosts: Vec<&gram::Case> = cases.iter().filter(|c| c.labels.len() <= 2).collect();
         let res: Vec<Option<(String, String)>> = hosts
             .par_iter()
             .map(|c| {
